@@ -1,11 +1,11 @@
 #!/bin/sh
 # tools/try_seed_isolated.sh <patch.diff|-> <Cxx> [tier]
 # Runs one check against a scratch copy of /repo (with the patch applied) and a scratch copy of
-# /verif, so that nothing in /repo or /verif is disturbed.  Scratch lives in /tmp/vt_<Cxx> and is
+# /verif, so that nothing in /repo or /verif is disturbed.  Scratch lives in /tmp/vt_<Cxx>_<pid> and is
 # removed afterwards (set KEEP=1 to keep it).  "-" as patch = unchanged tree.
 set -u
 PATCH=$1; PID=$2; TIER=${3:-quick}
-T=/tmp/vt_$PID
+T=/tmp/vt_${PID}_$$
 rm -rf "$T"; mkdir -p "$T"
 git -C /repo worktree prune
 git -C /repo worktree add -q --detach "$T/repo" HEAD || exit 2
